@@ -1,7 +1,7 @@
 """C19 - timestamps round-trip and are independent of content."""
 import random
 import vfx
-from props import hist, histprop
+from props import hist, histprop, common
 
 CONFIGS = ["mem", "phys", "alt_mem", "alt_phys", "ovl_mm", "ovl_pp", "ovl_sub", "ovl_alt", "alt_alt"]
 
@@ -124,5 +124,52 @@ P = histprop.HistProp(
           "directory whose files are symbolic links to files outside it, directly, through altroots and as an overlay's "
           "write layer: the setters, metadata, handles and copies must all address the linked file"),
     assumptions=["host filesystem keeps nanosecond timestamps in the generated range"])
-generate, corpus, run_and_compare, known = P.generate, P.corpus, P.run_and_compare, P.known
-RULE, ASSUMPTIONS, BUILDS = P.RULE, P.ASSUMPTIONS, P.BUILDS
+generate, corpus, known = P.generate, P.corpus, P.known
+ASSUMPTIONS, BUILDS = P.ASSUMPTIONS, P.BUILDS
+RULE = P.RULE + ("; the ASYNC port on physical backends (the async MemoryFS has no setters): every time value (epoch, before the "
+                 "epoch, 1 ns, sub-second, year 2100) through set_modification_time / set_access_time on files and directories, "
+                 "directly, through an altroot and as an overlay's write layer - metadata must report it, as the sync API does")
+
+
+def async_times():
+    """every time value through the async setters of the physical backend, read back through metadata"""
+    rng = random.Random(91)
+    cases = []
+    for kind in ("phys", "alt_phys", "ovl_pp"):
+        c = vfx.Case("c19_async_%s" % kind)
+        g = hist.build_config(c, kind, rng)
+        c.cfg = g
+        t = g.target
+        hist.write_file(c, t, "f", b"content")
+        c.op("createdir", vfx.ps(t, "d"))
+        for tgt in ("f", "d"):
+            for v in hist.TIMES + [-1, -999_999_999, -1_000_000_001]:
+                c.op("setmtime", vfx.ps(t, tgt), v); c.op("metadata", vfx.ps(t, tgt))
+                c.op("setatime", vfx.ps(t, tgt), v); c.op("metadata", vfx.ps(t, tgt))
+        cases.append(c)
+    return cases
+
+
+def run_and_compare(cases, tier):
+    from props import c15
+    res = P.run_and_compare(cases, tier)
+    sub = async_times()
+    sync, asy, _pend, _amodel = c15.run_variants(sub, "c19a", seed=19)
+    by = {c.name: c for c in sub}
+    seen = set()
+    n = 0
+    for k in sorted(set(sync) | set(asy), key=lambda k: (k[1], k[2], k[0])):
+        kind, cname, step = k
+        if kind != "r" or cname in seen:
+            continue
+        c = by[cname]
+        op = c.ops[step] if step < c.nops else ""
+        s_, a_ = sync.get(k), asy.get(k)
+        n += 1
+        if histprop.abstract_errors(s_ or "") != histprop.abstract_errors(a_ or ""):
+            seen.add(cname)
+            res["disagreements"].append({"case": cname, "case_text": c.text(), "step": step, "op": op, "kind": "r", "model": sync.get(k),
+                                         "impl": a_, "violates": True,
+                                         "note": "async physical backend at `%s`: %s where the sync API gives %s" % (op[:50], (a_ or "")[:120], (s_ or "")[:120])})
+    res["stats"].setdefault("distribution", {})["async_time_lines_compared"] = n
+    return res
